@@ -43,7 +43,8 @@ package runs
 //@   ensures [picked] pickedBy(r, (languages == nil ? r.getLanguages() : languages), uuid, key, native, result0, result1)
 //@   records gotText(r, languages, uuid, key, native, result0, result1)
 //@ loop 1
-//@   invariant forall k int :: 0 <= k && k <= $i ==> !qualifies(r, languages[k], uuid, key)
+// (over the entry value of `languages`: the function re-assigns the parameter, a refactoring may use a new local instead)
+//@   invariant forall k int :: 0 <= k && k <= $i ==> !qualifies(r, (old(languages) == nil ? r.getLanguages() : old(languages))[k], uuid, key)
 
 // ---- C07 / C20: history token for saved results (argument values as passed, before truncation)
 //@ pure resultSaved(r *run, name string, value string, category string, input string, node flows.NodeUUID) bool
